@@ -7,7 +7,7 @@ nobody), every interleaving at lock/unlock/notify granularity, every choice of t
 and every spurious wake-up.  Helper lemmas and the inductive invariants are in Proofs/Pool*.lean; the bit layout
 of the counter word comes from Extracted/PoolConsts.lean (regenerated from the source on every run).
 -/
-import YaclibModel.Proofs.PoolProgress
+import YaclibModel.Proofs.PoolBlocked
 import YaclibModel.Extracted.Kernels
 import YaclibModel.Model.Skeletons
 
@@ -350,6 +350,49 @@ theorem single_worker_fifo_complete (h : Reachable w s) (h1 : w.workers = 1) (hq
         cases pc <;> simp_all [pendOf, WPc.running]
       rw [hb.acc_split, hr.queue_empty, hb.hard_done hr.stopper_done, ← hfifo, hp]
       simp
+
+/-! ### client code that blocks or re-enters the pool
+
+The pool does not know what a job does.  A job body may submit to the same pool and wait for that job; a `Drop`
+(of a future core, say) passes the cancellation on by submitting its continuation to the same pool.  In the model
+every such Submit is one more Submit stream (`w.subs`): the theorems above hold whoever performs a Submit and
+whenever.  What the pool must guarantee for this to work is stated here. -/
+
+/-- `Call` and `Drop` are invoked with the mutex released: the calling thread is not inside a critical section
+    (so a `Call`/`Drop` that re-enters `Submit`/`Alive` does not deadlock with itself) … -/
+theorem client_code_outside_lock {l : Label} {s' : State} (hs : Step s l s') :
+    (∀ i j, l = .call i j → s.workers[i]? = some (.calling j)) ∧
+    (∀ j, l = .drop .stopper j → ∃ rest, s.xpc = .dropping (j :: rest)) ∧
+    (∀ i j, l = .drop (.sub i) j → ∃ sb, s.subs[i]? = some sb ∧ sb.pc = .dropping) := by
+  cases hs <;> refine ⟨?_, ?_, ?_⟩ <;> intros <;> simp_all
+
+/-- … and a critical section never contains client code or a blocking operation: whenever the mutex is held,
+    its holder can release it at once.  Hence every Submit — also one made from inside a Call or a Drop — gets the
+    mutex -/
+theorem critical_section_always_ends (h : Reachable w s) (hl : s.locked = true) : ∃ t s', Step s (.unlock t) s' :=
+  unlock_enabled_of_locked (invA_reachable h) hl
+
+/-- **work conservation**: while a worker sleeps, every queued job is covered by a wake-up that is already on its
+    way and does not depend on any job body returning — a worker that just started / left the wait queue / holds the
+    mutex, or a `notify_one` that a Submit is about to issue.  Workers inside a Call do not count. -/
+theorem work_conserving (h : Reachable w s) (hp : WPc.parked ∈ s.workers) :
+    s.queue.length ≤ s.workers.countP WPc.heading + s.subs.countP Sub.isNotifying :=
+  (invW_reachable h).conserve hp
+
+/-- consequently: when the pool's own code has come to rest — only client-controlled steps remain: a job body that has
+    not returned yet (it may be waiting for a queued job!), a client that has not called Submit / Stop / Wait yet,
+    HardStop's next Drop — no accepted job is left in the queue while a worker sleeps.  (This is the "no lost
+    wake-up" theorem for jobs that depend on each other; `no_lost_wakeup` is the case where no client code blocks.) -/
+theorem no_idle_worker_with_queued_job (h : Reachable w s) (hq : PoolAtRest s) :
+    s.locked = false ∧ (s.queue = [] ∨ WPc.parked ∉ s.workers) := by
+  have hr := heading_zero_of_at_rest (invA_reachable h) hq
+  refine ⟨hr.1, ?_⟩
+  by_cases hp : WPc.parked ∈ s.workers
+  · left
+    have := work_conserving h hp
+    rw [hr.2.1, hr.2.2] at this
+    exact List.eq_nil_of_length_eq_zero (by omega)
+  · exact Or.inr hp
 
 /-- everything the trace validator accepts is a behaviour the theorems speak about -/
 theorem validator_sound {l : Label} {s' : State} (h : Reachable w s) (hn : next s l = some s') : Reachable w s' :=
